@@ -101,6 +101,12 @@ CHECKS["C14"] = dict(
   text="Lock populations are produced by crashing two victims at every combination of seam events within the fault budget (committed primary with unresolved secondaries, rolled back, pending, async-commit, 1PC, pessimistic locks), then tikv.ResolveLocksForRange runs with every scan limit and an optional split; after a successful pass no lock <= safe point remains, committed versions are unchanged and every victim is all-or-nothing and ack-consistent. RunOnRange is run over every layout x range x concurrency x regions-per-task x failing sub-range, DeleteRangeTask over the same grid against a map, snapshot reads at sp-1 / sp / sp+1.",
   note=TXN_NOTE + " GC starts only after every transaction below the safe point ended or crashed; lock-only keys are avoided on unistore (it keeps no commit record for them).")
 
+CHECKS["C05"] = dict(
+  engine="parksched", category="model_checking", design="5/C05",
+  technique="crash-point enumeration of two writers to produce every kind of leftover lock, then an exhaustive grid over the real snapshot API (timestamps x access paths x bounds x batch sizes x key-only x warm/cold x SetSnapshotTS x split before each RPC) compared with the MVCC truth of the resolved final state",
+  text="MVCC histories come from crashing two writers at every combination of <= 2 store RPCs over committed base data (pending, committed-primary-unresolved-secondaries, rolled back, pessimistic, async-commit / 1PC locks, locks of later transactions); on each distinct history every snapshot timestamp between its events is read through point get, batch get of every subset, forward and reverse scans over every bound pair with batch sizes 2 and 3 and key-only, repeated on the warm snapshot, after SetSnapshotTS to every other timestamp and back, and with a region split before each of the first RPCs; every answer equals the MVCC truth.",
+  note=TXN_NOTE + " Unbounded reverse scans are the recorded known finding keyed under C01; on unistore reverse / unbounded scans are left out (store-side artefacts).")
+
 PENDING = {}
 for p in ALL:
     if p not in CHECKS:
@@ -120,7 +126,7 @@ def main():
      "engines": [
       {"name": "enum", "path": "harness/c19", "serves_properties": ["C15", "C19"], "kind_free_text": "bounded exhaustive input enumeration against laws/reference decoders"},
       {"name": "envx", "path": "harness/c10", "serves_properties": ["C10"], "kind_free_text": "deviation-bounded enumeration of environment answers (fault scripts) on sequential code"},
-      {"name": "parksched", "path": "rt/sched", "serves_properties": ["C01", "C02", "C03", "C04", "C06", "C13", "C14"], "kind_free_text": "controlled scheduler for real goroutines parked at seam points + deviation-bounded stateless DFS (preemption / fault budgets), replay by event identity, sharded over worker processes"},
+      {"name": "parksched", "path": "rt/sched", "serves_properties": ["C01", "C02", "C03", "C04", "C05", "C06", "C13", "C14"], "kind_free_text": "controlled scheduler for real goroutines parked at seam points + deviation-bounded stateless DFS (preemption / fault budgets), replay by event identity, sharded over worker processes"},
       {"name": "seqx", "path": "harness/c17", "serves_properties": ["C07", "C08", "C09", "C11", "C12", "C17", "C20"], "kind_free_text": "explicit-state BFS over operation sequences of real objects against a reference model"},
      ],
      "checks": [],
